@@ -934,6 +934,18 @@ func NewStreamMessage(streamID int) *Message {
 	return v
 }
 
+// The chunk stream id to write the message with. We always write the 1byte
+// basic header, which carries the ids 2 to 63 only: the ids 0 and 1 select the
+// 2 or 3 bytes basic header. So for a message without an id, like the one from
+// NewMessage, or with a larger id, like a message read from a peer which uses
+// large ids, use the default id.
+func (v *Message) chunkStreamID() chunkID {
+	if v.betterCid < chunkIDProtocolControl || v.betterCid > 0x3f {
+		return chunkIDOverStream
+	}
+	return v.betterCid
+}
+
 func (v *Message) generateC3Header() ([]byte, error) {
 	var c3h []byte
 	if v.Timestamp < extendedTimestamp {
@@ -943,7 +955,7 @@ func (v *Message) generateC3Header() ([]byte, error) {
 	}
 
 	p := c3h
-	p[0] = 0xc0 | byte(v.betterCid&0x3f)
+	p[0] = 0xc0 | byte(v.chunkStreamID())
 	p = p[1:]
 
 	// In RTMP protocol, there must not any timestamp in C3 header,
@@ -969,7 +981,7 @@ func (v *Message) generateC0Header() ([]byte, error) {
 	}
 
 	p := c0h
-	p[0] = byte(v.betterCid) & 0x3f
+	p[0] = byte(v.chunkStreamID())
 	p = p[1:]
 
 	if v.Timestamp < extendedTimestamp {
